@@ -22,6 +22,7 @@ type Stats struct {
 	Executions     int64
 	Pruned         int64
 	Points         int64
+	Accesses       int64 // instrumented plain-memory accesses checked for conflicts
 	MaxDecisions   int
 	MaxGoroutines  int
 	Outcomes       map[string]int64
@@ -63,6 +64,7 @@ func Explore(bound int, deadline time.Time, run func(prefix []int) Exec, onExec 
 		st.Executions++
 		out := x.Out
 		st.Points += int64(out.NPoints)
+		st.Accesses += out.Accesses
 		if len(out.Points) > st.MaxDecisions {
 			st.MaxDecisions = len(out.Points)
 		}
@@ -120,6 +122,6 @@ func Explore(bound int, deadline time.Time, run func(prefix []int) Exec, onExec 
 }
 
 func (s *Stats) String() string {
-	return fmt.Sprintf("bound=%d executions=%d pruned=%d fingerprints=%d outcomes=%d complete=%v maxdecisions=%d goroutines=%d",
-		s.Bound, s.Executions, s.Pruned, s.Fingerprints, len(s.Outcomes), s.Complete, s.MaxDecisions, s.MaxGoroutines)
+	return fmt.Sprintf("bound=%d executions=%d pruned=%d fingerprints=%d outcomes=%d complete=%v maxdecisions=%d goroutines=%d memory_accesses_checked=%d",
+		s.Bound, s.Executions, s.Pruned, s.Fingerprints, len(s.Outcomes), s.Complete, s.MaxDecisions, s.MaxGoroutines, s.Accesses)
 }
